@@ -98,11 +98,14 @@ def generate(rng, n, k):
             cases.append({"kind": kind, "compose": OI.valid_compose(rng, R), "ops": ops,
                           "orders": cellwise_shuffles(rng, ops, cell, k)})
         elif kind == "images":
-            pool = [OI.gen_image(rng, R, small=False, idx=j) for j in range(rng.randint(4, 8))]
+            big = (i // 6) % 4 == 3          # at scale: every fourth images case fills its cells with 100 images
+            pool = [OI.gen_image(rng, R, small=False, idx=j) for j in range(100 if big else rng.randint(4, 8))]
             for j, img in enumerate(pool):
                 img["disc_number"] = j + 1          # distinct identities: the order of adds cannot change the outcome
                 img["path"] = "%s-%d" % (img["path"], j)
             ops = [[rng.choice(OI.VARIANTS[:2]), rng.choice(OI.ARCHES[:2]), rng.randrange(len(pool))] for _ in range(rng.randint(5, 12))]
+            if big:
+                ops = [["Server", "x86_64", j] for j in range(len(pool))] + ops
             # the same ISO published under two file names: two image objects equal in everything but the path, in one cell
             twin = copy.deepcopy(pool[0])
             twin["path"] = pool[0]["path"] + ".latest"
